@@ -35,6 +35,18 @@ pub proof fn lemma_drop_cr_first(b: Seq<u8>, i: int)
         }
     }
 }
+/// one step of the left-to-right pass at position i
+pub proof fn lemma_drop_cr_step(b: Seq<u8>, i: int)
+    requires 0 <= i < b.len(),
+    ensures
+        crlf_at(b, i) ==> drop_cr(b.skip(i)) == drop_cr(b.skip(i + 1)),
+        !crlf_at(b, i) ==> drop_cr(b.skip(i)) == seq![b[i]] + drop_cr(b.skip(i + 1)),
+{
+    let t = b.skip(i);
+    assert(t[0] == b[i]);
+    if i + 1 < b.len() { assert(t[1] == b[i + 1]); }
+    assert(t.skip(1) =~= b.skip(i + 1));
+}
 pub uninterp spec fn strip_ansi(b: Seq<u8>) -> Option<Seq<u8>>;
 /// what TestCase::render_output must return: CR LF -> LF unless keep_crlf is set; ANSI stripped only when asked
 pub open spec fn rendered(t: TestCase, output: Seq<u8>) -> Option<Seq<u8>> {
